@@ -10,13 +10,17 @@ LEVEL = "model_checking"
 
 def run(ctx):
     ctx.build_mvh()
+    # implementation-shaped model of the request table and its cleaner with discrete time: the bursts it sends are exactly
+    # those the rule SrRule!Due prescribes (the same operator the trace monitor applies to recorded times)
+    ctx.mc("ISr", "ISr.cfg", timeout=1200, heap="8g")
     rng = random.Random(ctx.seed)
     scs = scenarios.fam_auto(rng, 300 if ctx.thorough() else 30, ctx.thorough())
     _node.run_family(ctx, scs, ["C16."], family="auto", workers=8, rule=(
         "heartbeat configurations (dialect common / none / without id 0 / with a non-standard id 0 / without id 66, enabled and "
         "disabled, period 20/50 ms, system and autopilot types, both versions) observed for 12 periods on 1..3 channels: field values, "
         "count per channel against the period, none when not wanted; stream requests: histories of heartbeats from (channel, system, "
-        "component, autopilot) sources interleaved with other traffic and writes: exactly the seven requests once per sender on its "
-        "channel, one event, nothing for other autopilots / disabled / dialect lacking a standard message; distinct = scenario shapes"))
+        "component, autopilot) sources interleaved with other traffic and writes: exactly the seven requests per due heartbeat (the first of "
+        "a sender, and every one at least 30 s after the sender's last burst - two long scenarios of 38 s and 63 s cross the "
+        "cleaner's ticks and the period from both sides) on its channel, one event each, nothing for other autopilots / disabled / dialect lacking a standard message; distinct = scenario shapes"))
     ctx.assumptions += ["heartbeat count tolerance: within 20 % +- 2 of window/period (Go tickers may compress gaps)",
-                        "re-request after 30 s is not waited for"]
+                        "recorded times are the consumer's: heartbeats within 400 ms of the 30 s boundary are not judged (the scenarios avoid them)"]
